@@ -148,7 +148,110 @@ func ruleBounds(c *Ctx, fns []string, tier string) *RuleResult {
 		}
 		r.note("%s: prover search nodes used: %d", name, P.nodes)
 	}
+	boundsHelpers(c, r, fns, tier)
 	return r
+}
+
+// boundsHelpers: unexported functions of the same package that the listed functions call
+// (directly or through one another) are part of the same operation: their obligations are proved
+// locally or, when they only mention the helper's parameters, lifted to every call site.
+func boundsHelpers(c *Ctx, r *RuleResult, roots []string, tier string) {
+	type site struct {
+		caller *ssa.Function
+		call   *ssa.Call
+	}
+	sites := map[*ssa.Function][]site{}
+	seen := map[*ssa.Function]bool{}
+	var work []*ssa.Function
+	for _, n := range roots {
+		f := c.Fn(n)
+		seen[f] = true
+		work = append(work, f)
+	}
+	var helpers []*ssa.Function
+	for len(work) > 0 {
+		f := work[0]
+		work = work[1:]
+		for _, b := range f.Blocks {
+			for _, in := range b.Instrs {
+				call, ok := in.(*ssa.Call)
+				if !ok {
+					continue
+				}
+				h := call.Call.StaticCallee()
+				if h == nil || h.Blocks == nil || h.Pkg == nil || h.Pkg != f.Pkg || h.Signature.Recv() != nil || h.Object() == nil || h.Object().Exported() {
+					continue
+				}
+				sites[h] = append(sites[h], site{f, call})
+				if !seen[h] {
+					seen[h] = true
+					helpers = append(helpers, h)
+					work = append(work, h)
+				}
+			}
+		}
+		for _, a := range f.AnonFuncs {
+			for _, ob := range boundsObligations(NewProver(c, a), a) {
+				_ = ob
+				r.undecided("%s contains a closure with index operations; facts of the enclosing function are not available inside it", c.short(f))
+				break
+			}
+		}
+	}
+	provers := map[*ssa.Function]*Prover{}
+	pr := func(f *ssa.Function) *Prover {
+		if provers[f] == nil {
+			provers[f] = NewProver(c, f)
+			if tier == "thorough" {
+				provers[f].Budget, provers[f].DProve, provers[f].DElim = 200000, 8, 8
+			}
+		}
+		return provers[f]
+	}
+	for _, h := range helpers {
+		hname := c.short(h)
+		HP := pr(h)
+		for _, ob := range boundsObligations(HP, h) {
+			if src := c.srcAt(ob.in.Pos()); src != "" {
+				ob.desc = src
+			}
+			r.inst("%s (helper): %s", hname, ob.desc)
+			for k, g := range ob.goals {
+				if HP.Prove(g, ob.in.Block()) {
+					r.oblig(true)
+					continue
+				}
+				// lift: the goal must be expressible over the helper's parameters, then hold at every call
+				allOK := true
+				where := ""
+				for _, st := range sites[h] {
+					CP := pr(st.caller)
+					t, ok := translatePoly(HP, g, h, CP, st.call.Call.Args)
+					if !ok || !CP.Prove(t, st.call.Block()) {
+						allOK = false
+						where = c.instrPos(st.call)
+						break
+					}
+				}
+				r.oblig(allOK)
+				if !allOK {
+					r.find(hname+":"+ob.desc, c.instrPos(ob.in), "%s: cannot prove %s for %s inside the helper, nor as a precondition at its call site %s", hname, ob.names[k], ob.desc, where)
+				}
+			}
+		}
+		for _, b := range h.Blocks {
+			for _, in := range b.Instrs {
+				if p, ok := in.(*ssa.Panic); ok {
+					r.inst("%s (helper): explicit panic", hname)
+					ok2 := HP.Unreachable(b, nil)
+					r.oblig(ok2)
+					if !ok2 {
+						r.find(hname+":panic", c.instrPos(p), "%s contains a reachable explicit panic", hname)
+					}
+				}
+			}
+		}
+	}
 }
 
 // loopsOf returns the natural loops of fn: header -> set of blocks.
